@@ -146,8 +146,46 @@ def documents(tier, layer):
     return out
 
 
+NS_ROWS_XML = ('<r xmlns:p="urn:a" xmlns:q="urn:b"><e/><p:e/><q:e/><e/><p:f/><e xmlns="urn:a"/><q:e/></r>',
+               '<r xmlns="urn:a" xmlns:q="urn:b"><e/><q:e/><e/><q:f/><q:e/><e/></r>')
+NS_MAPS = [None, {'x': 'urn:a'}, {'': 'urn:a'}, {'': 'urn:b', 'x': 'urn:a'}, {'': 'urn:zz'}]
+
+
+def run_ns(sv, res):
+    """Sibling rows whose elements sit in different namespaces: plain :nth-* counts every element sibling; of-type counts same name AND namespace."""
+    import bs4
+    import warnings
+    for m in NS_ROWS_XML:
+        with warnings.catch_warnings():
+            warnings.simplefilter('ignore')
+            soup = bs4.BeautifulSoup(m, 'xml')
+        for nsmap in NS_MAPS:
+            ctx = R.Ctx(soup, nsmap)
+            for kind in KINDS4:
+                for a, b in ((0, 1), (0, 2), (2, 1), (-1, 3), (1, 2), (3, 0)):
+                    for typ in ((None, '*') if nsmap and '' in nsmap else None, ('*', '*'), ('x', 'e') if nsmap and 'x' in nsmap else ('*', 'e')):
+                        lst = (S.cx(S.cp(typ, ('nth', kind, a, b, None, None))),)
+                        r = _sel.run_case(sv, soup, lst, namespaces=nsmap, ctx=ctx)
+                        res.evaluations += 1
+                        if r['status'] == 'ok':
+                            res.outcome('agree')
+                            res.nontrivial += 1 if r['want'] else 0
+                        elif r['status'] != 'unspecified':
+                            sig = {'kind': r['status'], 'direction': r.get('direction', r.get('exc', '')), 'context': 'namespaced-siblings', 'entry': 'select'}
+                            sig.update(nth_feature(lst))
+                            res.fail({'layer': 'ns', 'markup': m, 'map': nsmap, 'selector': lst, 'text': S.render(lst)}, sig, f'[map {nsmap!r}] ' + r.get('detail', ''))
+            for x, y in ((':first-child', ':nth-child(1)'), (':last-child', ':nth-last-child(1)'), (':only-child', ':nth-child(1):nth-last-child(1)')):
+                for pre in ('*|*', ''):
+                    ga, gb = sv.select(pre + x, soup, namespaces=nsmap), sv.select(pre + y, soup, namespaces=nsmap)
+                    res.evaluations += 1
+                    if [id(e) for e in ga] != [id(e) for e in gb]:
+                        res.fail({'layer': 'ns-equiv', 'markup': m, 'map': nsmap, 'pair': [pre + x, pre + y]}, {'kind': 'equivalence', 'pair': x, 'context': 'namespaced-siblings'},
+                                 f'{pre + x!r} and {pre + y!r} differ under map {nsmap!r}: {ga} vs {gb}')
+    return res
+
+
 def shards(tier, seed):
-    out = []
+    out = [('ns', tier, 0, 1)]
     for layer, n in (('plain', 48 if tier == 'quick' else 160), ('ofS', 32 if tier == 'quick' else 96), ('equiv', 1)):
         for i in range(n):
             out.append((layer, tier, i, n))
@@ -213,6 +251,8 @@ def run_shard(desc):
     sv = common.bind()
     layer, tier, i, n = desc
     res = shard.Result()
+    if layer == 'ns':
+        return run_ns(sv, res)
     if layer == 'equiv':
         return run_equiv(sv, tier, res)
     docs = built(tier, layer)
@@ -308,6 +348,13 @@ def run_equiv(sv, tier, res):
 def replay(case):
     from .. import common
     sv = common.bind()
+    if case['layer'] in ('ns', 'ns-equiv'):
+        r = shard.Result()
+        run_ns(sv, r)
+        for f in r.failures:
+            if f['case'].get('text') == case.get('text') and f['case'].get('pair') == case.get('pair') and f['case']['map'] == case['map']:
+                return f['sig'], f['detail']
+        return (r.failures[0]['sig'], r.failures[0]['detail']) if r.failures else None
     forest = _sel.tup(case['forest'])
     xml = case['xml']
     target = T.build_detached(forest[0], xml) if case['detached'] else T.build_api(forest, xml)
